@@ -405,6 +405,7 @@ class Types:
                 base = self.ctype(t[:-len(suf)])
                 e = self.elem.get(base)
                 if base.startswith('vec_'):
+                    self.note('vecit_' + sanitize(e), 'value', e)     # a reverse iterator wraps the forward one
                     return self.note('vecrit_' + sanitize(e), 'value', e)
                 raise Unsupported('reverse iterator of %r' % base)
         for suf in ('::iterator', '::const_iterator'):
@@ -2534,6 +2535,54 @@ class Unit:
             raise Unsupported('function %s is ambiguous (%d bodies)' % (qname, len(cands)))
         return cands[0]
 
+    # -- C++20 defaulted comparisons ([class.eq], [over.match.oper]): language-defined bodies, synthesised
+    #    D1: `bool operator==(const T&) const = default;`  -> memberwise ==, bases then members in declaration order
+    #    D2: no operator!= declared while operator== is    -> a != b is rewritten as !(a == b)
+    def synth_defaulted(self, q, f):
+        cls = '::'.join(q.split('::')[:-1])
+        op = q.split('::')[-1]
+        rec = self.index.records.get(cls)
+        if rec is None or op not in ('operator==', 'operator!='):
+            return None
+        decls = [c for c in kids(rec) if c.get('kind') == 'CXXMethodDecl']
+        eqs = [c for c in decls if c.get('name') == 'operator==']
+        cname = f.get('cname') or self.def_cname(q)
+        sct = self.self_struct_name(q)
+        if op == 'operator==':
+            d = [c for c in eqs if c.get('explicitlyDefaulted') == 'default']
+            if len(d) != 1:
+                return None
+            lines = ['{']
+            for fd in self.struct_fields(cls):
+                nm = sanitize(fd['name'])
+                ct = self.types.ctype_of(fd['type'])
+                self.self_fields.setdefault(cls, set()).add(fd['name'])
+                k = self.types.kind(ct)
+                if k in ('scalar', 'handle'):
+                    lines.append('  if (!(self->%s == other.%s)) return 0;' % (nm, nm))
+                else:
+                    lines.append('  if (!%s__op_eq(self->%s, other.%s)) return 0;' % (sanitize(ct), nm, nm))
+            lines += ['  return 1;', '}']
+            decl = d[0]
+            note = 'SYNTHESISED body of the defaulted operator== ([class.eq]: memberwise ==, declaration order)'
+        else:
+            if [c for c in decls if c.get('name') == 'operator!='] or not eqs:
+                return None
+            eqc = self.def_cname(cls + '::operator==')
+            lines = ['{', '  return !%s(self, other);' % eqc, '}']
+            decl = eqs[0]
+            note = 'SYNTHESISED: no operator!= is declared; a != b is the rewritten candidate !(a == b) ([over.match.oper])'
+        sha = ''
+        bo, eo = self.source_range(decl)
+        file_ = decl.get('loc', {}).get('file') or decl.get('_file')
+        if bo is not None and eo is not None and file_:
+            try:
+                sha = hashlib.sha256(open(file_, 'rb').read()[bo:eo + 1]).hexdigest()
+            except Exception:
+                sha = ''
+        return {'qname': q, 'cname': cname, 'sig': '_Bool %s(%s *self, %s other)' % (cname, sct, sct), 'lines': lines,
+                'dropped': [note], 'sha256': sha, 'line': decl.get('loc', {}).get('line', 0), 'loops': 0}
+
     def def_cname(self, q):
         short = q[len('Oomd::'):] if q.startswith('Oomd::') else q
         if short.startswith('Engine::'):
@@ -2559,7 +2608,14 @@ class Unit:
         results = []
         for f in self.cfg['functions']:
             q = f['qname']
-            fn = self.find_function(q, f.get('pick'))
+            try:
+                fn = self.find_function(q, f.get('pick'))
+            except Unsupported:
+                syn = self.synth_defaulted(q, f)
+                if syn is None:
+                    raise
+                results.append(syn)
+                continue
             cname = f.get('cname') or self.def_cname(q)
             em = FnEmitter(self, fn, q, cname, self.cfg)
             sig, lines = em.emit_function()
